@@ -32,6 +32,12 @@ pub fn check_case(ctx: &mut Ctx, gi: &GInfo, rule: usize, host: &str, form: Form
     if let Ok(mut c) = ctx.current.lock() {
         *c = json!({"grammar": gi.describe(), "rule": name, "input": host, "form": format!("{:?}", form)}).to_string();
     }
+    if let Some(f) = dump.file.as_mut() {
+        // journal: if the process dies in this case (unchecked slicing in a release-like
+        // build), the last line names it
+        let _ = writeln!(f, "BEGIN\t{}\t{}\t{:?}\t{}", gi.g.id(), name, form, serde_json::to_string(host).unwrap_or_default());
+        let _ = f.flush();
+    }
     let mut line = 0u64;
     for entry in ENTRIES {
         if matches!(entry, Entry::ParserParse | Entry::ParserCheck) && form != Form::Str {
@@ -162,6 +168,61 @@ pub fn run(world: &World, ctx: &mut Ctx, dump_path: Option<&str>) -> Option<Valu
         let _ = f.flush();
     }
     None
+}
+
+/// Compare the observation logs of the debug-like and the release-like build and amend the
+/// evidence file of C09.  Returns a violation document on the first difference.
+pub fn compare_dumps(debug_path: &str, release_path: &str, release_status: &str) -> Option<Value> {
+    use std::collections::HashMap;
+    let load = |p: &str| -> (HashMap<String, String>, Option<String>) {
+        let mut m = HashMap::new();
+        let mut last_begin = None;
+        let mut open = false;
+        for l in std::fs::read_to_string(p).unwrap_or_default().lines() {
+            if let Some(rest) = l.strip_prefix("BEGIN\t") {
+                last_begin = Some(rest.to_string());
+                open = true;
+                continue;
+            }
+            open = false;
+            if let Some((k, v)) = l.rsplit_once('\t') {
+                m.insert(k.to_string(), v.to_string());
+            }
+        }
+        (m, if open { last_begin } else { None })
+    };
+    let (dbg, _) = load(debug_path);
+    let (rel, rel_open) = load(release_path);
+    let ev_path = crate::common::verif_root().join("evidence").join("C09.json");
+    let mut ev: Value = std::fs::read_to_string(&ev_path).ok().and_then(|t| serde_json::from_str(&t).ok()).unwrap_or(json!({}));
+    let mut compared = 0u64;
+    let mut violation = None;
+    if release_status != "0" {
+        let case = rel_open.clone().unwrap_or_default();
+        let parts: Vec<&str> = case.split('\t').collect();
+        violation = Some(json!({"property": "C09", "kind": "release_crash", "why": format!("the release-like build of the runner died (status {}) while executing case {}", release_status, case),
+            "grammar": {"id": parts.first().copied().unwrap_or("")}, "rule": parts.get(1).copied().unwrap_or(""), "input": parts.get(3).and_then(|h| serde_json::from_str::<String>(h).ok()).unwrap_or_default(), "detail": {"form": parts.get(2).copied().unwrap_or("Str")}}));
+    }
+    if violation.is_none() {
+        for (k, v) in &rel {
+            if let Some(d) = dbg.get(k) {
+                compared += 1;
+                if d != v {
+                    let parts: Vec<&str> = k.split('\t').collect();
+                    violation = Some(json!({"property": "C09", "kind": "profile_difference", "why": format!("debug-like and release-like builds observe different results for case {}", k), "grammar": {"id": parts.first().copied().unwrap_or("")}, "rule": parts.get(1).copied().unwrap_or("")}));
+                    break;
+                }
+            }
+        }
+    }
+    if let Some(cov) = ev.get_mut("coverage").and_then(|c| c.as_object_mut()) {
+        cov.insert("release_like".into(), json!({"cases_logged_by_release_build": rel.len(), "cases_compared_with_debug_build": compared, "release_runner_status": release_status, "identical": violation.is_none()}));
+    }
+    if violation.is_some() {
+        ev["violations"] = json!(1);
+    }
+    let _ = std::fs::write(&ev_path, serde_json::to_string_pretty(&ev).unwrap_or_default());
+    violation
 }
 
 pub fn replay(ctx: &mut Ctx, gi: &GInfo, rule: usize, doc: &Value) -> CaseResult {
